@@ -321,10 +321,48 @@ def t07_bias(run, fx):
         run.anchor_missing(rule, "vec![Vec::new(); n] in rebuild_global_subr_index / rebuild_local_subr_indices (found %d)" % n)
 
 
+def t07_sent(run, fx):
+    rule = "T07-SENT"
+    run.rule(rule, "an FDSelect format 3 built for the output ends with the sentinel GID = number of glyphs (CFF specification, table 29: the "
+                   "sentinel delimits the last range, so it is one past the last glyph id): the `sentinel` field of every FDSelect::Format3 "
+                   "literal is the CharStrings INDEX len() (through checked conversions), with no arithmetic on it")
+    n = 0
+    for b in fx.bodies:
+        if b.exp:
+            continue
+        prov = None
+        for bi, blk in enumerate(b.blocks):
+            if not b.reachable(bi):
+                continue
+            for st in blk["s"]:
+                if st["k"] == "assign" and st["rv"]["k"] == "agg" and st["rv"].get("adt") == "cff::FDSelect" and st["rv"].get("vname") == "Format3":
+                    f = dict(zip(st["rv"]["fnames"], st["rv"]["fields"]))
+                    if "sentinel" not in f:
+                        continue
+                    if prov is None:
+                        prov = sym.Prov(b)
+                    t = sym.strip(prov.op(f["sentinel"]))
+                    # readers copy the value from the font: only literals whose sentinel is computed are of interest
+                    if any(x[0] == "call" and (x[4] or x[1] or "").endswith(("read_u16be", "ReadCtxt::<'a>::read", "ReadBinary::read")) for x in sym.walk(t)):
+                        continue
+                    n += 1
+                    has_len = any(x[0] == "call" and (x[4] or x[1] or "").endswith("::len") for x in sym.walk(t))
+                    arith_ = [x for x in sym.walk(t) if x[0] == "bin" or (x[0] == "call" and (x[4] or x[1] or "").endswith(
+                        ("::saturating_sub", "::checked_sub", "::wrapping_sub", "::saturating_add", "::checked_add")))]
+                    if has_len and not arith_:
+                        run.ok(rule, "%s: sentinel = len() of the CharStrings INDEX" % b.path)
+                    else:
+                        run.fail(rule, "sentinel:%s" % b.root, "%s builds an FDSelect format 3 whose sentinel is %s, not the glyph count: the last glyph "
+                                 "falls outside every range and has no Font DICT" % (b.path, sym.show(t)[:80]), b.loc(st))
+    if n == 0:
+        run.anchor_missing(rule, "a computed FDSelect::Format3 literal")
+
+
 def check(run, fx, tier, floors=True):
     if floors or any(callee_is(t, "cff::subset::rebuild_local_subr_indices") for b in fx.bodies for _, t in b.calls()):
         t07_subr(run, fx)
         t07_bias(run, fx)
+        t07_sent(run, fx)
     t07_id(run, fx, floors)
     t07_map(run, fx)
     if floors or fx.body("tables::glyf::GlyfRecord::<'a>::is_composite") is not None:
